@@ -74,12 +74,16 @@ pub fn env_dump(p: &Puppet, spec: &EnvSpec, before: HashMap<String, Callback>, a
     e.after_return = after_return;
     let mut dest = RecDest::new(Vec::new(), 0, spec.dest_fault.unwrap_or(Fault::None));
     let mut w = make_writer(p.pid, &spec.opts);
+    let degraded = !spec.plan.is_empty() || spec.failpoints != 0 || !e.before.is_empty() || e.after_return.is_some() || spec.dest_fault.is_some();
+    let was = crate::checks::universal::set_degraded(degraded);
     env::arm(e);
     let result = dump_with(&mut w, &mut dest);
     drop(w);
     env::fire_after_return();
     let e = env::disarm().expect("env");
     drop(fp);
+    crate::checks::universal::flush_pending();
+    crate::checks::universal::set_degraded(was);
     EnvOut { result, trace: e.trace, dev_opens: e.dev_opens, all_opens: e.all_opens, refused: e.refused, dest }
 }
 
